@@ -210,7 +210,10 @@ func TestVerifC13DiffRetypeLifetime(t *testing.T) {
 					}
 					name := fmt.Sprintf("create=%s|ttl=%s|op=%s", creator, c13dTTL(ttl), wrong)
 					run.Case("retype|"+name, nil)
-					c13RunRetype(t, run, name, creator, wrong, ttl, short, sleep)
+					// a stall between creation and the operation (short key possibly expired) is
+					// "not this scenario": retried, at most 6 times, so the floor does not depend on load
+					for try := 0; try < 6 && !c13RunRetype(t, run, name, creator, wrong, ttl, short, sleep); try++ {
+					}
 					run.Eval(1)
 					run.Distinct(name)
 				}
@@ -220,7 +223,8 @@ func TestVerifC13DiffRetypeLifetime(t *testing.T) {
 	run.Floor("retype_lifetimes_compared", int64(reps)*14)
 }
 
-func c13RunRetype(t *testing.T, run *vk.Run, name, creator, wrong string, ttl, short, sleep time.Duration) {
+func c13RunRetype(t *testing.T, run *vk.Run, name, creator, wrong string, ttl, short, sleep time.Duration) (judged bool) {
+	judged = true // everything but a stall counts as "scenario done"
 	mr, err := miniredis.Run()
 	if err != nil {
 		t.Errorf("[setup failed] miniredis: %v", err)
@@ -266,7 +270,7 @@ func c13RunRetype(t *testing.T, run *vk.Run, name, creator, wrong string, ttl, s
 	}
 	if ttl == short && !r1.Before(c.Add(short)) {
 		run.Count("retype_not_judged_stall", 1) // the key may have expired before the operation: not this scenario
-		return
+		return false
 	}
 	run.Count("retype_lifetimes_compared", 1)
 	if ttl == 0 {
@@ -290,4 +294,5 @@ func c13RunRetype(t *testing.T, run *vk.Run, name, creator, wrong string, ttl, s
 	if em || er {
 		run.Violation(fmt.Sprintf("C13:retype-lifetime|%s|after-deadline:memory_exists=%v|redis_exists=%v|want=gone", name, em, er), detail(nil))
 	}
+	return true
 }
